@@ -281,6 +281,20 @@ def _check_footer_panel(base_year=1990):
                     if out[6] != want or bool(out[7]) != bool(dstnow) or out[8] != (dsti if dstnow else 0):
                         return "zone with footer %r: lookup(%d) (year %d) reports offset %d, is_dst %d, abbreviation index %d; the POSIX rule gives offset %d, is_dst %d, the %s name" % (
                             footer.decode(), t, y, out[6], out[7], out[8], want, dstnow, "DST" if dstnow else "standard")
+                    # ... and back: the civil second shown for t converts to t again (UNIQUE) or to a pair containing t (REPEATED)
+                    mk = (ctypes.c_longlong * 4)()
+                    lib().tzr_make(ctypes.c_void_p(h), ctypes.c_longlong(out[0]), *[ctypes.c_int(x) for x in out[1:6]], mk)
+                    if mk[0] == 1 or (mk[0] == 0 and mk[1] != t) or (mk[0] == 2 and t not in (mk[1], mk[3])):
+                        return "zone with footer %r: lookup(%d) (year %d) shows %s, but lookup of that civil second gives kind %d, pre %d, post %d" % (
+                            footer.decode(), t, y, tuple(out[:6]), mk[0], mk[1], mk[3])
+                # the last day of the year and the first of the next (the calendar-year boundary of the shift)
+                for t in (cal.sec(y, 12, 31, 12, 0, 0), cal.sec(y + 1, 1, 1, 12, 0, 0)):
+                    out = (ctypes.c_longlong * 9)(); lib().tzr_break(ctypes.c_void_p(h), ctypes.c_longlong(t), out)
+                    mk = (ctypes.c_longlong * 4)()
+                    lib().tzr_make(ctypes.c_void_p(h), ctypes.c_longlong(out[0]), *[ctypes.c_int(x) for x in out[1:6]], mk)
+                    if mk[0] == 1 or (mk[0] == 0 and mk[1] != t) or (mk[0] == 2 and t not in (mk[1], mk[3])):
+                        return "zone with footer %r: lookup(%d) (year %d) shows %s, but lookup of that civil second gives kind %d, pre %d, post %d" % (
+                            footer.decode(), t, y, tuple(out[:6]), mk[0], mk[1], mk[3])
         finally:
             lib().tzr_free(ctypes.c_void_p(h))
     return None
@@ -325,3 +339,23 @@ def check_convert_panel():
                 3: "convert(2011-07-01 12:00:00, America/New_York) is not lookup().pre for a unique civil second",
                 10: "convert(time_point, America/New_York) is not lookup(tp).cs"}.get(r, "convert panel failed (%d)" % r)
     return common.isolated(run, timeout=60)
+
+def check_allyear_panel():
+    """zic's perpetual-DST footers (positive and negative saving): the file must load and show the DST type at every later instant"""
+    lib()
+    return common.isolated(_check_allyear_panel, timeout=120)
+def _check_allyear_panel():
+    for footer, so, do in ((b"EST5EDT,0/0,J365/25", -18000, -14400), (b"<+02>-2<+01>-1,0/0,J365/23", 7200, 3600)):
+        chars = _panel_chars(footer); dsti = chars.index(b"\0") + 1
+        u0 = cal.sec(1990, 6, 1, 0, 0, 0)
+        z = {"N": 2, "T": 2, "off": [so, do], "dst": [0, 1], "abbr": [0, dsti], "default": 0, "unix": [-(1 << 40), u0], "type": [0, 1], "chars": chars}
+        img = tzif(z, footer)
+        h = lib().tzr_load(img, ctypes.c_size_t(len(img)))
+        if not h: return "a zone ending in permanent DST with footer %r (zic's perpetual-DST form) is rejected by Load" % footer.decode()
+        try:
+            for t in (u0, u0 + 86400 * 200, cal.sec(2024, 1, 1, 0, 0, 0), cal.sec(2024, 12, 31, 23, 59, 59), cal.sec(9999, 7, 1, 0, 0, 0)):
+                out = (ctypes.c_longlong * 9)(); lib().tzr_break(ctypes.c_void_p(h), ctypes.c_longlong(t), out)
+                if out[6] != do or not out[7]: return "zone with footer %r: lookup(%d) reports offset %d, is_dst %d; permanent DST gives offset %d" % (footer.decode(), t, out[6], out[7], do)
+        finally:
+            lib().tzr_free(ctypes.c_void_p(h))
+    return None
